@@ -23,13 +23,16 @@ LAYOUTS = {
 }
 INPUT_SETS = [["good", "bad"], ["bad", "good"], [None, "good"], ["good", None], ["", "good"], ["bad", "worse"],
               # the same instant in two notations / two instants (for the shipped constraints 932.. of expression set 3)
-              ["2022-01-01T12:00:00+00:00", "2022-01-01T14:00:00+02:00"], ["2021-12-31T23:00:00+00:00", "2022-01-01T00:00:00+01:00"]]
+              ["2022-01-01T12:00:00+00:00", "2022-01-01T14:00:00+02:00"], ["2021-12-31T23:00:00+00:00", "2022-01-01T00:00:00+01:00"],
+              # inputs that differ only in surrounding whitespace
+              ["good", "good "], [" good", "good"]]
 INPUT_SETS3 = [["good", "bad", None], ["bad", None, "good"], [None, "good", "bad"], ["good", "bad", "bad"], ["bad", "good", "good"],
                ["bad", "good", "bad"]]
 EXPR_SETS = [["Muss [1][950]", "Muss [1][950]", "Muss [1][950]"],  # identical expressions (shared FC key and FC expression)
              ["Muss [4P][950]", "Muss [1][950]", "Soll [1][950]"],  # the first one sits behind a package (a yield BEFORE the set)
              ["Muss [1][950]", "Muss [4P][950] U [951]", "Kann [1][950]"],
-             ["Muss [1][932]", "Muss [1][UB1]", "Muss [1][933]"]]  # shipped date-time constraints (same code for every element)
+             ["Muss [1][932]", "Muss [1][UB1]", "Muss [1][933]"],  # shipped date-time constraints (same code for every element)
+             ["Muss [5P]", "Muss [1][ 950 ]", "Soll [5P] U [951]"]]  # the format constraint only arrives through a package / a spaced key
 
 
 def describe(tier):
@@ -119,7 +122,7 @@ def _factory(item, zero, solo=None):
     top, elems = _model(item)
 
     def factory(sched):
-        env = c12._env(sched, rc={"1": "F"}, fc={"950": _fc_answer, "951": (True, None)}, packages={"4P": "[1]"},
+        env = c12._env(sched, rc={"1": "F"}, fc={"950": _fc_answer, "951": (True, None)}, packages={"4P": "[1]", "5P": "[1][950]"},
                        yields={"*": 0} if zero else None)
 
         async def go():
@@ -164,6 +167,16 @@ def _oracle(item, observed_json):
             leaked = [x for x in others if o["format_msg"] and x in o["format_msg"]]
             if leaked:
                 out.append(("foreign-input-seen", {"id": el["id"], "own_input": el["input"]}, {"id": el["id"], "format_msg": o["format_msg"]}))
+                continue
+            # ... and the verdict is the one for the element's OWN instant (reference R9: German midnight)
+            from datetime import datetime
+
+            from mc.ref import berlin as B
+
+            want = B.german_second_of_day(int(datetime.fromisoformat(el["input"]).timestamp())) == 0
+            if o["format"] is not want:
+                out.append(("foreign-input-seen", {"id": el["id"], "own_input": el["input"], "format": want},
+                            {"id": el["id"], "format": o["format"], "format_msg": o["format_msg"]}))
                 continue
         exp_ful, exp_msg = _fc_answer(el["input"])
         if not builtin and (o["format"] is not exp_ful or o["format_msg"] != exp_msg):
